@@ -188,6 +188,9 @@ func valTok(v interface{}) int {
 		}
 		return 0
 	case string:
+		if x == "" {
+			return 0 // the zero value of the element type
+		}
 		n, err := strconv.Atoi(strings.TrimPrefix(x, "s"))
 		if err != nil {
 			return -999999
